@@ -327,6 +327,43 @@ def check_enums(ctx):
                     ctx.violate("default weights are not 1 where the mirror is present and 2 otherwise", {"op": kind, "n": n}, {"kind": "weights"})
 
 
+def check_index_dtypes(ctx):
+    """element indices may be held in any integer type that can hold them (uint8 files of a 64-element array, int16, lists):
+    complete captures are recognised, weights and completeness are the same as with int64 indices"""
+    from arim import ut
+
+    rng = ctx.rng
+    for n in (3, 11, 12, 16, 17, 23):
+        for kind, fn in (("fmc", ut.fmc), ("hmc", ut.hmc)):
+            tx0, rx0 = fn(n)
+            perm = rng.permutation(len(tx0))
+            tx0, rx0 = np.asarray(tx0)[perm], np.asarray(rx0)[perm]
+            ref_w = [float(v) for v in ut.default_timetrace_weights(tx0.astype(np.int64), rx0.astype(np.int64))]
+            for dt in (np.uint8, np.int8, np.int16, np.uint16, np.int32, np.uint32, np.int64, "list"):
+                if dt != "list" and n - 1 > np.iinfo(dt).max:
+                    continue
+                tx = [int(v) for v in tx0] if dt == "list" else tx0.astype(dt)
+                rx = [int(v) for v in rx0] if dt == "list" else rx0.astype(dt)
+                name = dt if dt == "list" else np.dtype(dt).name
+                cj = {"op": "index_dtype", "capture": kind, "n": n, "dtype": name}
+                ctx.case(("idxdtype", kind, n, name), True)
+                ctx.count("index_dtype:" + name)
+                try:
+                    with np.errstate(all="ignore"):
+                        import warnings
+                        with warnings.catch_warnings():
+                            warnings.simplefilter("ignore")
+                            got = ut.infer_capture_method(tx, rx)
+                            w = [float(v) for v in ut.default_timetrace_weights(tx, rx)]
+                except Exception as e:
+                    ctx.violate(f"{kind}({n}) with indices held as {name}: {type(e).__name__}: {str(e)[:80]}", cj, {"kind": "index_dtype"})
+                    continue
+                if got != kind:
+                    ctx.violate(f"a complete (permuted) {kind} of {n} elements with indices held as {name} is reported as '{got}'", cj, {"kind": "index_dtype"})
+                if w != ref_w:
+                    ctx.violate(f"default weights depend on the integer type of the indices ({name}, {kind}({n}))", cj, {"kind": "index_dtype"})
+
+
 def check_fresh_enums(ctx):
     import fixtures
     from arim import ut
@@ -357,6 +394,7 @@ def run(ctx):
     check_enums(ctx)
     check_duplicates(ctx)
     check_fresh_enums(ctx)
+    check_index_dtypes(ctx)
     n = 700 * ctx.scale
     runs = []
     for _ in range(n):
